@@ -107,6 +107,17 @@ def run_engine(agg, exe, prop, tier, seed, mode, tag, nshards=None, extra=None, 
                 errtxt = open(l, errors="replace").read()[-3000:]
             except OSError:
                 pass
+            # sanitizer reports that did not stop the process (ThreadSanitizer runs with halt_on_error=0)
+            try:
+                full = open(l, errors="replace").read()
+            except OSError:
+                full = ""
+            for m in re.finditer(r"SUMMARY: (ThreadSanitizer|AddressSanitizer|UndefinedBehaviorSanitizer): ([^\n]*)", full):
+                what = m.group(2).strip()
+                fn = re.search(r" in (\S+)\s*$", what)
+                kind = what.split(" ")[0] + ("-" + what.split(" ")[1] if len(what.split(" ")) > 1 and what.split(" ")[1] in ("race", "inversion") else "")
+                agg.viols.append({"key": "%s:%s:%s" % ({"ThreadSanitizer": "tsan", "AddressSanitizer": "asan", "UndefinedBehaviorSanitizer": "ubsan"}[m.group(1)], kind, fn.group(1) if fn else "?"), "msg": "sanitizer report: " + what, "case": " ".join(a), "idx": -1, "run": runinfo, "prop": prop})
+                agg.stats["tsan_reports"] = agg.stats.get("tsan_reports", 0) + (1 if m.group(1) == "ThreadSanitizer" else 0)
             if rc == "timeout":
                 agg.harness_errors.append("engine %s %s shard timed out after %.0fs (inconclusive)" % (os.path.basename(exe), mode, dt))
             elif rc != 0 or not done:
